@@ -86,6 +86,10 @@ def gen_toy(c):
     if c.random() < 0.5:
         op.append({'name': 'q0', 'mode': 'linear', 'fit': False,
                    'bounds': [0.1, 2.0], 'value': 0.5})
+    if c.random() < 0.3:
+        # error inflation: an observation-side parameter that rescales sigma
+        op.append({'name': 'einf', 'mode': 'linear', 'fit': False,
+                   'bounds': [0.5, 3.0], 'value': 1.0, 'inflate': True})
     ngrid = c.randint(3, 8)
     cfg = {'kind': 'toy', 'mparams': mp, 'mderived': [], 'oparams': op,
            'oderived': [], 'ngrid': ngrid,
@@ -106,9 +110,14 @@ def gen_toy(c):
     for nme in c.sample(names, k):
         p = [q for q in mp + op if q['name'] == nme][0]
         lo, hi = p['bounds']
-        kind = c.choice(['Uniform', 'LogUniform', 'Gaussian', 'LogGaussian'])
+        kind = c.choice(['Uniform', 'LogUniform', 'Gaussian', 'LogGaussian',
+                         'LnUniform'])
         if kind == 'Uniform':
             spec = {'kind': kind, 'args': {'bounds': [lo, hi]}}
+        elif kind == 'LnUniform':
+            # a plug-in prior written against the public Prior base class
+            spec = {'kind': kind, 'args': {'bounds': [math.log(lo),
+                                                      math.log(hi)]}}
         elif kind == 'LogUniform':
             spec = {'kind': kind, 'args': {'lin_bounds': [lo, hi]}}
         elif kind == 'Gaussian':
@@ -125,7 +134,7 @@ def gen_toy(c):
         tot_hi = sum(p['bounds'][1] for p in mp)
         tot_lo = sum(p['bounds'][0] for p in mp)
         cfg['invalid_above'] = tot_lo + (tot_hi - tot_lo) * c.uniform(0.3, 0.9) \
-            + sum(q['value'] for q in op)
+            + sum(q['value'] for q in op if not q.get('inflate'))
     return cfg, fit
 
 
@@ -207,6 +216,31 @@ def generate(run_seed, tier):
     S.default_prior_share(c, fit)
     cfg['faulty'] = c.random() < 0.6
     cfg['wide'] = wide
+    # non-default options of the wrappers (they must not change what the
+    # callbacks compute)
+    oc = st('options')
+    cfg['options'] = {
+        'nestle': {'method': oc.choice(['multi', 'single', 'classic']),
+                   'tol': oc.choice([0.5, 5.0, 0.01]),
+                   'num_live_points': oc.choice([5, 50, 1500])},
+        'multinest': {'importance_sampling': oc.random() < 0.4,
+                      'search_multi_modes': oc.random() < 0.5,
+                      'constant_efficiency_mode': oc.random() < 0.3,
+                      'sampling_efficiency': oc.choice(['parameter', 0.3]),
+                      'num_live_points': oc.choice([5, 400]),
+                      'max_iterations': oc.choice([0, 1000]),
+                      'resume': oc.random() < 0.2,
+                      'verbose_output': oc.random() < 0.5,
+                      'multinest_prefix': oc.choice(['1-', 'run_', 'x-'])},
+        'polychord': {'cluster': oc.random() < 0.5,
+                      'num_live_points': oc.choice([5, 400]),
+                      'max_iterations': oc.choice([0, 1000]),
+                      'resume': oc.random() < 0.2,
+                      'verbosity': oc.choice([0, 1, 3])},
+    }[sampler]
+    for f in fit:
+        # the public set_mode accepts any spelling
+        f['mode_spelling'] = oc.choice(['lower', 'lower', 'upper', 'title'])
     o = st('ops')
     kmax = 120 if tier == 'quick' else 400
     k = o.randint(5, kmax) if o.random() < 0.8 else o.randint(1, 10)
@@ -343,7 +377,8 @@ def execute(case, keep_text=False):
             yb = obs0.create_binner().bin_model(res)[1]
             off = 0.0
             if is_toy:
-                off = sum(obs0._values.values())
+                off = sum(v for k_, v in obs0._values.items()
+                          if k_ not in obs0._inflate)
             cfg['obs_override'] = (np.asarray(yb, dtype=float) - off).tolist()
             out.bump('probes', 'exact_fit_run')
         except Exception:
@@ -355,13 +390,15 @@ def execute(case, keep_text=False):
     chain = os.path.join(scratch, 'chains-c06')
     os.makedirs(chain, exist_ok=True)
     klass = samplers.optimizer_classes()[kind]
+    okw = dict(cfg.get('options') or {})
     if kind == 'nestle':
-        opt = klass(observed=obs, model=model, num_live_points=5)
+        okw.setdefault('num_live_points', 5)
+        opt = klass(observed=obs, model=model, **okw)
     elif kind == 'multinest':
-        opt = klass(multi_nest_path=chain, observed=obs, model=model,
-                    num_live_points=5)
+        okw.setdefault('num_live_points', 5)
+        opt = klass(multi_nest_path=chain, observed=obs, model=model, **okw)
     else:
-        opt = klass(polychord_path=chain, observed=obs, model=model)
+        opt = klass(polychord_path=chain, observed=obs, model=model, **okw)
     S.configure_optimizer(opt, fit, derived=[])
 
     baseline = {}
